@@ -194,6 +194,20 @@ def run(ctx, prop):
     if len(histories) < 1000:
         raise vlib.MachineryFault("Gen_BlockAPI exported %d histories" % len(histories))
     ctx.mc("MC_LZ4Block", cfg="MC_LZ4Block_quick", timeout=900)
+    if prop in ("C01", "C10"):
+        # the 16-bit position table of the fast compressor: exact inside the window, aliases (possibly exactly W back)
+        # outside - TLC at W = 8, Apalache with the real constants
+        ctx.mc("FastTable", timeout=300, workers=2)
+        done = 0
+        for inv in ("InWindowExact", "AlwaysBehind", "StaleAliases", "DistanceWOccurs"):
+            ok, text = vlib.run_apalache("FastTableInd", "Init", inv, 0, next_="Next")
+            if ok is None:
+                ctx.notes.append("apalache could not be run: FastTableInd skipped")
+                break
+            if not ok:
+                raise vlib.MachineryFault("Apalache refutes FastTableInd!%s (model-level finding):\n%s" % (inv, text))
+            done += 1
+        ctx.extra["apalache_fast_table_lemmas"] = {"discharged": done, "of": 4, "what": "W = 65536, positions up to 4 MiB"}
     g = ctx.mc("Gen_BlockGrid", cfg="Gen_BlockGrid_quick" if q else "Gen_BlockGrid", want_cases=True, timeout=1800, heap="8g")
     cases = build_cases(ctx, histories, sorted(g.cases, key=lambda h: json.dumps(h, sort_keys=True)), d)
     by_case = execute(b, cases, d, "run")
